@@ -2,6 +2,8 @@
 //! REAL component through `init` + `execute` on a `State` with one (DE crossover: two) population(s).
 //! The harness prints input and resulting population only; the witness (indices, masks, draws) is
 //! read off the unique element tags by the Lean driver, which also checks that it is a legal one.
+//! `(state ..)` cases run whole configurations (blocks, scopes, loops; several `Configuration::run`) on ONE
+//! `State` and print the population after every execution of a mutation component.
 use hcommon::problems::{OneMax, Sphere, Tsp};
 use hcommon::*;
 use mahf::components::mutation::de::DEMutation;
@@ -133,6 +135,155 @@ fn run_phases<P: Problem<Objective = SingleObjective>>(problem: &P, comps: Vec<B
     tagged("phases", phases)
 }
 
+
+// ------------------------------------------------------------------ whole configurations on one State
+/// Records the current population (the standard `(ok H (ev..) (pop..))` result) each time it is executed.
+#[derive(Clone)]
+pub struct Snap<E> { sink: std::sync::Arc<std::sync::Mutex<Vec<String>>>, show: fn(&E) -> String }
+impl<E> serde::Serialize for Snap<E> {
+    fn serialize<S: serde::Serializer>(&self, s: S) -> Result<S::Ok, S::Error> { s.serialize_unit_struct("Snap") }
+}
+impl<P: Problem<Objective = SingleObjective>> Component<P> for Snap<P::Encoding> where P::Encoding: Clone + Send + Sync + 'static {
+    fn execute(&self, _problem: &P, state: &mut State<P>) -> mahf::ExecResult<()> {
+        let pops = state.populations();
+        let top: Vec<String> = pops.current().iter().map(|i| (self.show)(i.solution())).collect();
+        let ev: Vec<String> = pops.current().iter().map(|i| b(i.is_evaluated())).collect();
+        self.sink.lock().unwrap().push(list(["ok".to_string(), pops.len().to_string(), tagged("ev", ev), tagged("pop", top)]));
+        Ok(())
+    }
+}
+
+type Leaf<'a, P> = &'a dyn Fn(&str, f64, f64) -> Box<dyn Component<P>>;
+
+/// `(m ID P1 RM)` → the real component followed by a `Snap`; `(scope ITEM*)` → `Scope::new`; `(loop K ITEM*)` →
+/// `Loop::new(LessThanN::iterations(K), ..)`.
+fn build_items<P: Problem<Objective = SingleObjective>>(items: &[Sx], leaf: Leaf<P>, snap: &Snap<P::Encoding>) -> Vec<Box<dyn Component<P>>>
+where P::Encoding: Clone + Send + Sync + 'static {
+    let mut v: Vec<Box<dyn Component<P>>> = vec![];
+    for it in items {
+        let (h, a) = it.head().unwrap();
+        match h {
+            "m" => {
+                v.push(leaf(a[0].atom().unwrap(), a[1].float().unwrap(), a[2].float().unwrap()));
+                v.push(Box::new(snap.clone()));
+            }
+            "scope" => v.push(mahf::components::Scope::new(build_items(a, leaf, snap))),
+            "loop" => v.push(mahf::components::Loop::new(
+                mahf::conditions::LessThanN::iterations(a[0].nat().unwrap() as u32), build_items(&a[1..], leaf, snap))),
+            _ => panic!("unknown item {h}"),
+        }
+    }
+    v
+}
+
+/// Every `(run ITEM*)` is built with the real `Configuration::builder()` and executed by `Configuration::run` on
+/// ONE `State` (which starts with the population `pop`); per run the status and the population after every
+/// execution of a mutation component.
+fn run_state<P: Problem<Objective = SingleObjective>>(problem: &P, runs: &[Sx], rng: Random, pop: Vec<P::Encoding>,
+                  show: fn(&P::Encoding) -> String, leaf: Leaf<P>) -> String
+where P::Encoding: Clone + Send + Sync + 'static {
+    let mut state: State<P> = State::new();
+    state.insert(Populations::<P>::new());
+    state.insert(rng);
+    state.populations_mut().push(pop.into_iter().map(|s| Individual::new(s, SingleObjective::try_from(1.0).unwrap())).collect());
+    let sink = std::sync::Arc::new(std::sync::Mutex::new(Vec::<String>::new()));
+    let snap = Snap { sink: sink.clone(), show };
+    let mut out = vec![];
+    for r in runs {
+        let (_, items) = r.head().unwrap();
+        let status = catch(|| {
+            let config = mahf::Configuration::builder().do_many_(build_items(items, leaf, &snap)).build();
+            if config.run(problem, &mut state).is_ok() { "ok" } else { "err" }
+        });
+        let snaps: Vec<String> = std::mem::take(&mut *sink.lock().unwrap());
+        out.push(tagged("run", std::iter::once(status.unwrap_or("panic").to_string()).chain(snaps)));
+        if status.is_none() { break; }      // the state may be torn after a panic
+    }
+    tagged("runs", out)
+}
+
+macro_rules! with_id {
+    ($id:expr, $I:ident => $e:expr) => {
+        match $id {
+            "g" => { type $I = mahf::identifier::Global; $e }
+            "a" => { type $I = mahf::identifier::A; $e }
+            "b" => { type $I = mahf::identifier::B; $e }
+            other => panic!("unknown identifier {other}"),
+        }
+    };
+}
+
+/// `(state KIND SEED (pop ..) (run ITEM*)+)`
+fn run_state_case(a: &[Sx]) -> String {
+    let kind = a[0].atom().unwrap().to_string();
+    let runs = &a[3..];
+    match kind.as_str() {
+        "normal" | "uniform" | "spread" => {
+            let pop = pop_of(&a[2], fl);
+            let problem = Sphere::new(pop.first().map_or(1, |s| s.len()).max(1), -5.0, 5.0, 0.0);
+            let leaf = |id: &str, p1: f64, rm: f64| -> Box<dyn Component<Sphere>> {
+                with_id!(id, I => match kind.as_str() {
+                    "normal" => NormalMutation::<I>::new_with_id(p1, rm),
+                    "uniform" => UniformMutation::<I>::new_with_id(p1, rm),
+                    _ => PartialRandomSpread::<I>::new_with_id(rm),
+                })
+            };
+            run_state(&problem, runs, rng_of(&a[1]), pop, |s: &Vec<f64>| fs(s), &leaf)
+        }
+        "bitflip" | "bits" => {
+            let pop = pop_of(&a[2], bl);
+            let problem = OneMax::new(pop.first().map_or(0, |s| s.len()));
+            let leaf = |id: &str, p1: f64, rm: f64| -> Box<dyn Component<OneMax>> {
+                with_id!(id, I => if kind == "bitflip" { BitFlipMutation::<I>::new_with_id(rm) }
+                                  else { PartialRandomBitstring::<I>::new_with_id(p1, rm) })
+            };
+            run_state(&problem, runs, rng_of(&a[1]), pop, |s: &Vec<bool>| bs(s), &leaf)
+        }
+        _ => {
+            let pop = pop_of(&a[2], us);
+            let n = pop.first().map_or(0, |s| s.len());
+            let problem = Tsp::new(vec![vec![1.0; n]; n]);
+            let leaf = |id: &str, _p1: f64, rm: f64| -> Box<dyn Component<Tsp>> {
+                with_id!(id, I => ScrambleMutation::<I>::new_with_id(rm))
+            };
+            run_state(&problem, runs, rng_of(&a[1]), pop, |s: &Vec<usize>| vs(s), &leaf)
+        }
+    }
+}
+
+/// The instances initialised at one level (loops belong to the level, scopes open a new one) all agree on the
+/// values they share; checked for every level.
+fn levels_consistent(items: &[Sx], has_strength: bool) -> bool {
+    fn level<'a>(items: &'a [Sx], out: &mut Vec<(&'a str, u64, u64)>, scopes: &mut Vec<&'a [Sx]>) {
+        for it in items {
+            let (h, a) = it.head().unwrap();
+            match h {
+                "m" => out.push((a[0].atom().unwrap(), a[1].float().unwrap().to_bits(), a[2].float().unwrap().to_bits())),
+                "scope" => scopes.push(a),
+                _ => level(&a[1..], out, scopes),
+            }
+        }
+    }
+    let (mut here, mut scopes) = (vec![], vec![]);
+    level(items, &mut here, &mut scopes);
+    let ok = here.iter().all(|c| here.iter().all(|d| c.0 != d.0 || (c.2 == d.2 && (!has_strength || c.1 == d.1))));
+    ok && scopes.iter().all(|s| levels_consistent(s, has_strength))
+}
+
+fn state_site(a: &[Sx]) -> String {
+    let kind = a[0].atom().unwrap();
+    let base = match kind { "normal" => "NormalMutation", "uniform" => "UniformMutation", "spread" => "PartialRandomSpread",
+                            "bitflip" => "BitFlipMutation", "bits" => "PartialRandomBitstring", _ => "ScrambleMutation" };
+    let runs = &a[3..];
+    fn nested(items: &[Sx]) -> bool {
+        items.iter().any(|it| { let (h, a) = it.head().unwrap(); h == "scope" || (h == "loop" && nested(&a[1..])) })
+    }
+    let nest = runs.iter().any(|r| nested(r.head().unwrap().1));
+    let shape = match (runs.len() > 1, nest) { (true, true) => "@rerun-nested", (true, false) => "@rerun", (false, true) => "@nested", _ => "@sequence" };
+    let ok = runs.iter().all(|r| levels_consistent(r.head().unwrap().1, kind == "normal" || kind == "uniform"));
+    format!("{base}{shape}{}", if ok { "" } else { "!malformed" })
+}
+
 /// `(a P1 P2 RM)` / `(g P1 P2 RM)`
 fn triple(x: &Sx) -> (f64, f64, f64) {
     let v = x.items().unwrap();
@@ -184,6 +335,7 @@ pub fn run_component_x(name: &str, a: &[Sx], x: Extra) -> String {
                 list([if ok { "ok".to_string() } else { "err".to_string() }, tagged("stack", stack)])
             }).unwrap_or_else(|| "panic".into())
         }
+        "state" => run_state_case(a),
         "mut-normal" | "mut-uniform" => {
             let (p1, rm) = (a[0].float().unwrap(), a[1].float().unwrap());
             let pop = pop_of(&a[3], fl);
@@ -430,6 +582,7 @@ pub fn site_of(name: &str, a: &[Sx]) -> String {
             return decorate(&site_of(inner, &ia), &deco);
         }
         "mutdefault" => return "mutation-default".into(),
+        "state" => return state_site(a),
         _ => {}
     }
     let zero = |i: usize| a[i].atom() == Some("zero");
@@ -594,6 +747,7 @@ pub fn generate(a: &Args, rng: &mut Sm, emit: &mut dyn FnMut(String)) {
         }
     }
     generate_ext(a, &mut g, emit);
+    generate_state(a, &mut g, emit);
     // parameter values outside the documented domain (never a violation; the model must still agree)
     let p = g.reals(2, 3);
     let q = g.bits(2, 3);
@@ -775,4 +929,96 @@ fn generate_ext(a: &Args, g: &mut G, emit: &mut dyn FnMut(String)) {
             emit(format!("(decx {} {} {} {} {} {})", kind, fx(pc), g.seed(), dim, pf(&base), pf(&mutant)));
         } }
     } }
+}
+
+/// Whole configurations on ONE state: the parameter states a component finds there were left by an earlier
+/// `Configuration::run`, belong to an instance of the same type and identifier in an enclosing scope, or to
+/// instances with other identifiers — each execution must follow the parameters of ITS OWN instance.
+fn generate_state(a: &Args, g: &mut G, emit: &mut dyn FnMut(String)) {
+    let reps = if a.thorough { 8 } else { 1 };
+    let kinds = ["normal", "uniform", "spread", "bitflip", "bits", "scramble"];
+    // the first parameter of an instance: strength / bound, `p` of the bitstring resampler, unused otherwise
+    fn p1s(kind: &str) -> &'static [f64] {
+        match kind { "normal" | "uniform" => &[0.1, 25.0, 1.0], "bits" => &[1.0, 0.0, 0.5], _ => &[0.0] }
+    }
+    let m = |id: &str, p1: f64, rm: f64| format!("(m {id} {} {})", fx(p1), fx(rm));
+    for _ in 0..reps { for kind in kinds {
+        let ps = p1s(kind);
+        let (va, vb) = (ps[0], ps[ps.len().min(2) - 1]);
+        let mut case = |g: &mut G, runs: &[String]| {
+            let (n, dim) = (g.rng.range(1, 3) as usize, g.rng.range(1, 6) as usize);
+            let pop = match kind { "normal" | "uniform" | "spread" => pf(&g.reals(n, dim)), "scramble" => pu(&g.tagged_vecs(n, dim)), _ => pb(&g.bits(n, dim)) };
+            emit(format!("(state {kind} {} {pop} {})", g.seed(), runs.iter().map(|r| format!("(run {r})")).collect::<Vec<_>>().join(" ")));
+        };
+        for id in ["g", "a"] {
+            // (A) the same State used again: a later instance with OTHER values (rate 1 -> 0, 0 -> 1, an invalid
+            // rate that made the first run fail -> a valid one, strengths swapped)
+            for rates in [&[1.0, 0.0][..], &[0.0, 1.0], &[0.5, 0.0], &[1.0, 0.0, 1.0, 0.0], &[1.5, 0.5], &[1.5, 0.0], &[f64::NAN, 1.0], &[1.0, 1.0, 0.0]] {
+                let runs: Vec<String> = rates.iter().enumerate().map(|(i, &r)| m(id, if i % 2 == 0 { vb } else { va }, r)).collect();
+                case(g, &runs);
+            }
+            // (B) an instance in a Scope under an enclosing instance of the same type and identifier, depth 1..3;
+            // the enclosing instance executes again after the scope and must still follow its own values
+            for (outer, inner) in [(1.0, 0.0), (0.0, 1.0), (0.5, 0.0), (1.0, 0.5)] {
+                case(g, &[format!("{} (scope {})", m(id, vb, outer), m(id, va, inner))]);
+                case(g, &[format!("{} (scope {}) {}", m(id, vb, outer), m(id, va, inner), m(id, vb, outer))]);
+                case(g, &[format!("{} (scope {} (scope {}))", m(id, vb, outer), m(id, va, 0.5), m(id, va, inner))]);
+                case(g, &[format!("{} (scope (scope {} (scope {})) {}) {}", m(id, vb, outer), m(id, va, outer), m(id, va, inner), m(id, vb, inner), m(id, vb, outer))]);
+                case(g, &[format!("{} (scope (scope (scope {})))", m(id, vb, outer), m(id, va, inner))]);
+                // (D) loops: the scope is entered (and its body initialised) in every pass
+                case(g, &[format!("(loop 2 {} (scope {}))", m(id, vb, outer), m(id, va, inner))]);
+                case(g, &[format!("{} (scope (loop 2 {} (scope {})))", m(id, vb, outer), m(id, va, inner), m(id, va, outer))]);
+                // (A+B) a second run on the state the nested run left
+                case(g, &[format!("{} (scope {})", m(id, vb, outer), m(id, va, inner)), format!("{} (scope {})", m(id, va, inner), m(id, vb, outer))]);
+            }
+        }
+        // (C) instances with different identifiers side by side, in scopes, and across runs
+        for (ra, rg) in [(0.0, 1.0), (1.0, 0.0), (0.5, 1.0)] {
+            case(g, &[format!("{} {} {} {}", m("a", va, ra), m("g", vb, rg), m("a", va, ra), m("b", vb, ra))]);
+            case(g, &[format!("{} {} (scope {} {}) {} {}", m("a", va, ra), m("g", vb, rg), m("a", vb, rg), m("g", va, ra), m("a", va, ra), m("g", vb, rg))]);
+            case(g, &[format!("{} (scope {} (scope {}))", m("a", va, ra), m("g", vb, rg), m("a", vb, rg)), format!("{} {}", m("g", va, ra), m("a", vb, rg))]);
+            case(g, &[format!("{} {}", m("a", va, ra), m("b", va, rg)), format!("{} {}", m("b", vb, ra), m("a", vb, rg)), format!("(scope {}) {}", m("b", va, rg), m("b", vb, ra))]);
+        }
+        // instances of one type and identifier with different values at ONE level: the later init wins (outside what
+        // identifiers are for: site `!malformed`, the model must agree)
+        case(g, &[format!("{} {}", m("g", va, 1.0), m("g", va, 0.0))]);
+        case(g, &[format!("{} (scope {} (loop 2 {}))", m("g", va, 0.0), m("a", vb, 0.0), m("a", vb, 1.0))]);
+        // (E) random configurations: 1..3 runs, depth <= 3, identifiers g/a/b, one set of values per level and identifier
+        for _ in 0..(if a.thorough { 40 } else { 24 }) {
+            let nruns = g.rng.range(1, 3) as usize;
+            let runs: Vec<String> = (0..nruns).map(|_| random_level(g, ps, 0, false)).collect();
+            case(g, &runs);
+        }
+    } }
+}
+
+/// One block: every identifier gets one (p1, rate) for this level; 1..4 items: instances, scopes (a new level),
+/// at most one loop per level and none directly inside a loop (nested loops share `Iterations` unless scoped).
+fn random_level(g: &mut G, ps: &[f64], depth: usize, in_loop: bool) -> String {
+    let ids = ["g", "a", "b"];
+    let vals: Vec<(f64, f64)> = ids.iter().map(|_| (*g.rng.pick(ps), *g.rng.pick(&[0.0, 0.0, 1.0, 1.0, 0.5]))).collect();
+    random_items(g, ps, depth, in_loop, &vals, &mut false)
+}
+
+fn random_items(g: &mut G, ps: &[f64], depth: usize, in_loop: bool, vals: &[(f64, f64)], looped: &mut bool) -> String {
+    let ids = ["g", "a", "b"];
+    let n = g.rng.range(1, if depth == 0 { 4 } else { 3 }) as usize;
+    let mut out = vec![];
+    for _ in 0..n {
+        match g.rng.below(10) {
+            0 | 1 | 2 if depth < 3 => out.push(format!("(scope {})", random_level(g, ps, depth + 1, false))),
+            3 if !in_loop && !*looped => {
+                *looped = true;
+                let k = g.rng.range(1, 3);
+                let body = random_items(g, ps, depth, true, vals, looped);
+                out.push(format!("(loop {k} {body})"));
+            }
+            _ => {
+                // mostly the first two identifiers, so that instances of one type and identifier meet
+                let i = if g.rng.chance(1, 6) { 2 } else { g.rng.below(2) as usize };
+                out.push(format!("(m {} {} {})", ids[i], fx(vals[i].0), fx(vals[i].1)));
+            }
+        }
+    }
+    out.join(" ")
 }
